@@ -36,8 +36,30 @@ def queued_flag_discipline(r, ctx):
     uplink map; one queue entry per lane (C01.R5 / C14.R2)."""
     push, pop, _ = fns(ctx)
     pbs = [c for c in push.calls if c.name == "push_back" and describe_operand(push, c.args[0]).endswith(".write_queue")]
-    if len(pbs) < 6:
-        raise AnchorMissing("Uplinks::push: expected 6 write_queue.push_back sites, found %d" % len(pbs))
+    if len(pbs) < 1:
+        raise AnchorMissing("Uplinks::push: no write_queue.push_back site")
+    # recorded => scheduled: whatever the busy branch records on a lane's uplink entry (a value, an operation, the synced marker) is only ever sent
+    # if the lane is in the write queue: every path from taking the entry to the normal return tests `queued` (and queues the lane when it is not)
+    ents_ = [c for c in push.calls if c.name == "entry" and c.args and describe_operand(push, c.args[0]).endswith("_uplinks")]
+    if len(ents_) < 2:
+        raise AnchorMissing("Uplinks::push: expected the uplink entries taken while the writer is busy, found %d" % len(ents_))
+    qtests = set()
+    for b_ in range(push.n):
+        t_ = push.term(b_)
+        if t_.get("k") == "switch" and t_.get("discr") is not None and describe_operand(push, t_["discr"]).rstrip(")").endswith("queued"):
+            qtests.add(b_)
+    okret = {i for i, j, p_, rv, line in push.assigns() if describe_rvalue(push, rv).startswith("Result::Ok(")}
+    for c in sorted(ents_, key=lambda x: x.block):
+        g = dom_guards(push, c.block)
+        ev, sub = _kind_of(g, "push")
+        arm = ("Synced(%s)" % sub) if ev == "Synced" and sub else (ev or "?")
+        ok, wit = push.must_pass(push.succ[c.block], qtests, targets=okret | set(push.exits())) if qtests else (False, None)
+        # error returns (an invalid map key) leave nothing recorded: only the paths that reach the normal return count
+        if not ok and wit is not None and not any(w in okret for w in wit) and okret:
+            ok = push.path_avoiding(push.succ[c.block], okret, avoid=qtests) is None
+        r.check(ok, "push/%s/recorded=>scheduled" % arm, c.loc(), "what the %s arm records for the lane is followed by the `queued` test that puts the lane into the write queue" % arm,
+                "the %s arm records state on the lane's uplink while the writer is busy and returns without making sure the lane is in write_queue: if nothing else is queued for the lane it is never written "
+                "(a `synced` that is never sent, and a marker left behind that is emitted on a later link)" % arm)
     for c in pbs:
         g = dom_guards(push, c.block)
         ev, sub = _kind_of(g, "push")
@@ -475,3 +497,48 @@ def frame_lane_name(r, ctx):
     if n < 7:
         raise AnchorMissing("expected the 7 frame construction sites of Uplinks (found %d)" % n)
 
+
+def implicit_link_rule(r, ctx, rt, he):
+    """WriteTaskState::handle_event: a targeted response to a remote links it first - decided by a test of this (remote, lane) pair, recorded only for a
+    remote the tracker knows, `linked` queued before the data. Shared by C04.R8 and C03.R5. Returns (push_special calls, push_write calls)."""
+    # implicit link: on !is_linked: links.insert and push_special(Linked) dominate push_write; order of the pair (w1, w2)
+    ins = [c for c in he.calls if c.is_method("links::Links", "insert")]
+    sp = [c for c in he.calls if c.name == "push_special"]
+    pws = [c for c in he.calls if c.name == "push_write"]
+    if len(ins) != 1 or len(sp) != 1:
+        raise AnchorMissing("handle_event: implicit link sites (links.insert %d, push_special %d)" % (len(ins), len(sp)))
+    # the test that decides "not linked yet" has to be about this (lane, remote) pair: a remote that is linked to
+    # another lane only must still get `linked` for this one before any of its frames
+    lane_d, remote_d = describe_operand(he, ins[0].args[1]), describe_operand(he, ins[0].args[2])
+    g = dom_guards(he, ins[0].block)
+    def all_args(d):
+        """all (nested) call arguments of a rendered expression"""
+        out, depth, cur, stack = [], 0, "", []
+        for ch in d:
+            if ch == "(":
+                stack.append(cur)
+                cur = ""
+            elif ch == ")":
+                if cur.strip():
+                    out.append(cur.strip())
+                cur = stack.pop() + "()" if stack else ""
+            elif ch == "," :
+                if cur.strip():
+                    out.append(cur.strip())
+                cur = ""
+            else:
+                cur += ch
+        return out
+    pair_tests = [(d, l) for d, l, _ in g if "links" in d and lane_d in all_args(d) and remote_d in all_args(d)]
+    r.check(len(pair_tests) >= 1 and all(l == "false" for d, l in pair_tests if d.startswith("is_linked(")), "handle_event/implicit-link-iff-pair-not-linked", ins[0].loc(),
+            "links.insert + Linked exactly when this (remote, lane) pair is not linked (%s)" % (pair_tests[0][0][:50] if pair_tests else ""),
+            "the implicit link is decided by %s, which does not test the (remote %s, lane %s) pair: a remote linked to another lane gets this lane's frames without `linked` and is never recorded as linked" % ([(d[:50], l) for d, l, _ in g if "links" in d or "link" in d][-2:], remote_d, lane_d))
+    known = [(d, l) for d, l, _ in g if d.startswith("has_remote(") and remote_d in all_args(d)]
+    r.check(any(l == "true" for d, l in known), "handle_event/implicit-link-only-for-attached-remote", ins[0].loc(), "the implicit link is recorded only for a remote the tracker still knows (has_remote)",
+            "links.insert for the target of a response is not guarded by remote_tracker.has_remote: the late response of a remote that was removed creates a link that nothing can ever remove (and that is counted)")
+    r.check(all(any(dd == d and ll == l for dd, ll, _ in dom_guards(he, sp[0].block)) for d, l in pair_tests), "handle_event/Linked-under-the-same-test", sp[0].loc(), "the Linked frame is queued under the same test as the registration")
+    first = [c for c in pws if he.dominates(sp[0].block, c.block)]
+    r.check(len(first) == 1 and he.dominates(ins[0].block, sp[0].block), "handle_event/linked-before-data", sp[0].loc(), "insert, then push_special(Linked), then push_write on the implicit-link path",
+            "data is queued before the implicit Linked")
+    r.check("SpecialAction::Linked(id)" in describe_operand(he, sp[0].args[1]), "handle_event/linked-same-lane", sp[0].loc(), "the implicit Linked names the event's lane")
+    return sp, pws
